@@ -1168,7 +1168,7 @@ def _run(ctx, replay):
         for spec, ops in specs_c:
             res = c14.run_case(spec, ops)
             case = dict(part="C", spec=spec, ops=res["ops"])
-            kinds = [(e.split()[1].lstrip("(") if e.startswith("Ev") else "Late") for e in res["events"] if e]
+            kinds = [e.split()[0] for e in res["events"] if e]
             ctx.count(case, nontrivial=kinds.count("Fail") >= 1 and len(kinds) >= 10)
             ctx.h("C_fail_events", min(kinds.count("Fail"), 8))
             ctx.traces_validated += 1
